@@ -39,52 +39,81 @@ def term(v):
     return ["?", repr(v)[:40]]
 
 
-class Recorder:
-    def __init__(self, bs):
-        self.bs = bs
-        self.counts = {}
-        self.rs_ids = []          # (node, id(random_state), state digest before) for C02
+_RECORDERS = {}
 
-    def token(self, k, v):
-        if k == "batch_size":
-            return ["BS"] if v == self.bs else ["BS?", str(v)]
-        if k == "random_state":
-            return ["RS"] if isinstance(v, np.random.RandomState) else ["RS?", type(v).__name__]
-        if k == "meta":
-            ok = isinstance(v, dict) and v.get("batch_index") == 0 and "submission_index" in v and "master_seed" in v
-            return ["META"] if ok else ["META?", repr(v)[:40]]
-        return term(v)
+
+def _token(bs, k, v):
+    if k == "batch_size":
+        return ["BS"] if v == bs else ["BS?", str(v)]
+    if k == "random_state":
+        return ["RS"] if isinstance(v, np.random.RandomState) else ["RS?", type(v).__name__]
+    if k == "meta":
+        ok = isinstance(v, dict) and v.get("batch_index") == 0 and "submission_index" in v and "master_seed" in v
+        return ["META"] if ok else ["META?", repr(v)[:40]]
+    return term(v)
+
+
+class SymOp:
+    """Symbolic operation (picklable: models holding it can be saved and loaded)."""
+
+    def __init__(self, name, key, bs, opid=0):
+        self.name, self.key, self.bs, self.opid = name, key, bs, opid
+        self.__name__ = "op_" + name
+
+    def _count(self):
+        c = _RECORDERS.setdefault(self.key, {})
+        c[self.name] = c.get(self.name, 0) + 1
+
+    def __call__(self, *args, **kwargs):
+        self._count()
+        named = [ABSENT] * len(KEYS)
+        extra = []
+        for k, v in kwargs.items():
+            if k in KEYS:
+                named[KEYS.index(k)] = _token(self.bs, k, v)
+            else:
+                extra.append(["?kw", k])
+        return Sym(["app", self.name, [term(a) for a in args] + extra, named])
+
+
+class SymDist(SymOp):
+    """scipy-like distribution whose rvs returns a term"""
+
+    def __call__(self, *a, **k):
+        raise TypeError("a distribution is not callable")
+
+    def rvs(self, *params, size=None, random_state=None, **kw):
+        self._count()
+        named = [ABSENT] * len(KEYS)
+        named[KEYS.index("batch_size")] = ["BS"] if size == (self.bs,) else ["BS?", str(size)]
+        named[KEYS.index("random_state")] = _token(self.bs, "random_state", random_state)
+        for k, v in kw.items():
+            if k in KEYS:
+                named[KEYS.index(k)] = _token(self.bs, k, v)
+        return Sym(["app", self.name, [term(a) for a in params], named])
+
+
+class Recorder:
+    _n = 0
+
+    def __init__(self, bs):
+        Recorder._n += 1
+        self.key = Recorder._n
+        self.bs = bs
+        _RECORDERS[self.key] = {}
+
+    @property
+    def counts(self):
+        return _RECORDERS[self.key]
 
     def make_op(self, name):
-        def op(*args, **kwargs):
-            self.counts[name] = self.counts.get(name, 0) + 1
-            named = [ABSENT] * len(KEYS)
-            extra = []
-            for k, v in kwargs.items():
-                if k in KEYS:
-                    named[KEYS.index(k)] = self.token(k, v)
-                else:
-                    extra.append(["?kw", k])
-            return Sym(["app", name, [term(a) for a in args] + extra, named])
-        op.__name__ = "op_" + name
-        return op
+        return SymOp(name, self.key, self.bs)
 
     def make_dist(self, name):
-        rec = self
+        return SymDist(name, self.key, self.bs)
 
-        class Dist:
-            """scipy-like distribution whose rvs returns a term"""
-
-            def rvs(self, *params, size=None, random_state=None, **kw):
-                rec.counts[name] = rec.counts.get(name, 0) + 1
-                named = [ABSENT] * len(KEYS)
-                named[KEYS.index("batch_size")] = ["BS"] if size == (rec.bs,) else ["BS?", str(size)]
-                named[KEYS.index("random_state")] = rec.token("random_state", random_state)
-                for k, v in kw.items():
-                    if k in KEYS:
-                        named[KEYS.index(k)] = rec.token(k, v)
-                return Sym(["app", name, [term(a) for a in params], named])
-        return Dist()
+    def close(self):
+        _RECORDERS.pop(self.key, None)
 
 
 def build_model(g, rec, order=None, model_name="symg"):
